@@ -343,6 +343,89 @@ theorem keygen_usk_roundtrip (L : Leaves c) (w : World) (h : Reachable w) (right
         | none => simp [hsk] at hsig
         | some k => simp [Usk.toWire, sign, hsk]
 
+/-- the chains `refresh_coordinate_keys` hands back are not empty when no master chain is -/
+theorem refreshCoordinateKeys_nonempty (msk : Msk) (hne : msk.secrets.NonEmpty) (chains : RevVec) :
+    ∀ p ∈ refreshCoordinateKeys msk chains, p.2 ≠ [] := by
+  intro p hp
+  simp only [refreshCoordinateKeys, List.mem_filterMap] at hp
+  obtain ⟨q, _, hq⟩ := hp
+  obtain ⟨r, uchain⟩ := q
+  simp only at hq
+  cases hg : msk.secrets.get r with
+  | none => simp [hg] at hq
+  | some mchain =>
+    simp only [hg, Option.map_eq_some_iff] at hq
+    obtain ⟨cch, hc, rfl⟩ := hq
+    have hm : mchain ≠ [] := hne r mchain (CC.Look.lookup_mem hg)
+    rcases CC.refreshChain_head (mchain.map (·.2)) uchain cch hc with hh | hh
+    · intro hnil
+      simp only at hnil
+      rw [hnil] at hh
+      cases mchain with
+      | nil => exact hm rfl
+      | cons x xs => simp at hh
+    · exact absurd (List.map_eq_nil_iff.1 hh) hm
+
+/-- C13 for refreshed keys over every history: whatever key is offered to `refresh_usk` in a reachable
+world (with at least one tracer), with either flag, the key a successful refresh leaves behind is a
+well-formed wire object and round-trips -/
+theorem refreshed_usk_roundtrip (L : Leaves c) (w : World) (h : Reachable w) (hk : w.msk.ntracers ≠ 0)
+    (usk : Usk) (keep : Bool) (hok : (refresh w.msk usk keep w.rng).1 = .ok ())
+    (hs : UskSmall (refresh w.msk usk keep w.rng).2.2.1) :
+    deserialize (Wire.usk c) (encUsk ((refresh w.msk usk keep w.rng).2.2.1.toWire L)) =
+      some ((refresh w.msk usk keep w.rng).2.2.1.toWire L) := by
+  obtain ⟨hsig, hul⟩ := reachable_shape w h
+  have hne := reachable_nonEmpty w h
+  revert hok hs
+  unfold refresh
+  by_cases hv : verify w.msk usk = true
+  · simp only [hv, Bool.not_true, Bool.false_eq_true, if_false]
+    have hsec := (refreshId_secrets w.msk usk.id w.rng).1
+    have hsame := refreshId_same w.msk usk.id w.rng
+    -- the identifier a successful `refresh_id` returns is not empty
+    have hidne : ∀ nid, (refreshId w.msk usk.id w.rng).1 = .ok nid → nid ≠ [] := by
+      intro nid
+      unfold refreshId
+      by_cases hkn : usk.id ∈ w.msk.users
+      · by_cases hl : usk.id.length = w.msk.ntracers
+        · simp only [hkn, not_true_eq_false, if_false, hl, ne_eq, Except.ok.injEq]
+          intro he hnil
+          subst he
+          rw [hnil] at hl
+          exact hk hl.symm
+        · exact absurd (hul _ hkn) hl
+      · simp [hkn]
+    rcases hid : refreshId w.msk usk.id w.rng with ⟨res, msk', n'⟩
+    rw [hid] at hsec hsame hidne
+    simp only at hsec hsame hidne
+    cases res with
+    | error e => intro hok; simp at hok
+    | ok nid =>
+      simp only
+      have hne' : msk'.secrets.NonEmpty := by rw [hsec]; exact hne
+      have hsk' : msk'.signKey.isSome = true := by rw [hsame.1]; exact hsig
+      cases hnr : (if keep = true then Except.ok (refreshCoordinateKeys msk' usk.secrets)
+          else latestRightSks msk' ((usk.secrets.map (·.1)).filter (fun r => msk'.secrets.containsKey r))) with
+      | error e => intro hok; simp at hok
+      | ok nr =>
+        simp only
+        intro _ hs
+        refine usk_roundtrip c _ (usk_wf L _ (hidne nid rfl) ?_ hs) ?_
+        · simp only
+          cases keep with
+          | true =>
+            simp only [if_true, Except.ok.injEq] at hnr
+            subst hnr
+            exact refreshCoordinateKeys_nonempty msk' hne' usk.secrets
+          | false =>
+            simp only [Bool.false_eq_true, if_false] at hnr
+            exact latestRightSks_nonempty msk' _ nr hnr
+        · cases hk2 : msk'.signKey with
+          | none => simp [hk2] at hsk'
+          | some k => simp [Usk.toWire, sign, hk2]
+  · simp only [hv, Bool.not_false, if_true]
+    intro hok; simp at hok
+
 /-! ## the wire layout determines the key -/
 
 theorem strBytes_inj {a b : String} (h : strBytes a = strBytes b) : a = b := by
